@@ -245,7 +245,7 @@ def run(ctx, rep):
     mf = [n for n in cfgp.live_nodes() if n.kind == "cond" and utext(n.exprs[0]) == CT("available_size >= min_fill_size")]
     rep.check(len(mf) == 2, "R2", key(pl, None, "at the best price the level must hold at least the minimum fill"), pl)
     rb = [n for n in cfgv.live_nodes() if n.kind == "cond" and utext(n.exprs[0]) == CT("self.size_matched < min_fill_size")]
-    good = len(rb) == 1 and not cfgv.guards(rb[0].id)
+    good = len(rb) == 1 and cfgv.unconditional(rb[0].id)
     if good:
         t = [m for l, m in rb[0].succ if l == "T"][0]
         txt = " ".join(cfgv.nodes[x].text(200) for x in cfgv.reachable(t))
